@@ -78,6 +78,111 @@ async fn task_mock(mock: unimock::Unimock, calls: Vec<CallPlan>) {
 
 type TaskFut = Pin<Box<dyn Future<Output = ()>>>;
 
+struct CtxPtr(*mut RunCtx);
+// SAFETY: the run context is only ever touched by the one simulated task the
+// scheduler has released; hand-offs go through channels.
+unsafe impl Send for CtxPtr {}
+
+/// A sync-only task running on its own parked OS thread, seen by the executor
+/// as a future: a poll releases the thread for one run segment (up to the next
+/// `sim::sync_point` or the end), a yield shows up as Pending with a wake.
+struct ThreadedTask {
+    task: u8,
+    go: std::sync::mpsc::Sender<()>,
+    ev: std::sync::mpsc::Receiver<sim::ThreadEv>,
+    handle: Option<std::thread::JoinHandle<()>>,
+    finished: bool,
+}
+
+impl ThreadedTask {
+    fn spawn(task: u8, ctx: *mut RunCtx, body: Box<dyn FnOnce() + Send>) -> ThreadedTask {
+        let (go_tx, go_rx) = std::sync::mpsc::channel::<()>();
+        let (ev_tx, ev_rx) = std::sync::mpsc::channel::<sim::ThreadEv>();
+        let ctx = CtxPtr(ctx);
+        let handle = std::thread::spawn(move || {
+            let ctx = ctx;
+            if go_rx.recv().is_err() {
+                return;
+            }
+            sim::install(ctx.0);
+            sim::set_yielder(Some((ev_tx.clone(), go_rx)));
+            sim::window_open_local();
+            let r = catch_unwind(AssertUnwindSafe(body));
+            let allocs = sim::window_close_local();
+            sim::set_yielder(None);
+            let msg = match r {
+                Ok(()) => None,
+                Err(p) => {
+                    let m = panic_message(&p);
+                    sim::masked(|| drop(p));
+                    Some(m)
+                }
+            };
+            sim::uninstall();
+            let _ = match msg {
+                None => ev_tx.send(sim::ThreadEv::Done { allocs }),
+                Some(message) => ev_tx.send(sim::ThreadEv::Panicked { allocs, message }),
+            };
+        });
+        ThreadedTask { task, go: go_tx, ev: ev_rx, handle: Some(handle), finished: false }
+    }
+}
+
+impl Future for ThreadedTask {
+    type Output = ();
+    fn poll(mut self: Pin<&mut Self>, cx: &mut Context<'_>) -> Poll<()> {
+        let _ = sim::masked(|| self.go.send(()));
+        match sim::masked(|| self.ev.recv()) {
+            Ok(sim::ThreadEv::Parked { allocs }) => {
+                sim::add_allocs(allocs);
+                sim::with_ctx(|c| {
+                    c.leaf_pendings_in_poll += 1;
+                    let task = c.current_task;
+                    c.events.push(Ev::LeafPending { task });
+                });
+                sim::masked(|| cx.waker().wake_by_ref());
+                Poll::Pending
+            }
+            Ok(sim::ThreadEv::Done { allocs }) => {
+                sim::add_allocs(allocs);
+                self.finished = true;
+                Poll::Ready(())
+            }
+            Ok(sim::ThreadEv::Panicked { allocs, message }) => {
+                sim::add_allocs(allocs);
+                self.finished = true;
+                // re-raise on the executor thread, as a poll of an async task would
+                std::panic::resume_unwind(Box::new(message));
+            }
+            Err(_) => {
+                self.finished = true;
+                Poll::Ready(())
+            }
+        }
+    }
+}
+
+impl Drop for ThreadedTask {
+    fn drop(&mut self) {
+        if !self.finished {
+            // a sync call cannot be cancelled: let it run to completion, unjudged
+            sim::record(Ev::Abandoned { task: self.task });
+            loop {
+                if self.go.send(()).is_err() {
+                    break;
+                }
+                match self.ev.recv() {
+                    Ok(sim::ThreadEv::Parked { .. }) => continue,
+                    _ => break,
+                }
+            }
+        }
+        if let Some(h) = self.handle.take() {
+            let _ = h.join();
+        }
+    }
+}
+
 #[derive(Clone, Copy, PartialEq, Eq, Debug)]
 pub enum TaskEnd {
     Completed,
@@ -149,6 +254,43 @@ fn run_inner(plan: &Plan, apps: &Apps, mode: u8, deny: bool, script: Option<(u32
     };
     for (i, t) in plan.tasks.iter().enumerate() {
         let direct = mode == 1;
+        let all_sync = t.calls.iter().all(|c| !MODEL[c.method as usize].is_async);
+        if t.threaded && all_sync && script.is_none() {
+            let calls = t.calls.clone();
+            let (a, b) = (apps.a, apps.b);
+            let app = t.app;
+            #[cfg(feature = "unimock")]
+            let mock_clone = if app == 2 && mode == 0 { mock.as_ref().map(|m| m.clone()) } else { None };
+            let body: Box<dyn FnOnce() + Send> = Box::new(move || {
+                for c in &calls {
+                    match app {
+                        0 => {
+                            dispatch::call_sync_a(a, c.method, &c.vals, direct, c.flavor);
+                        }
+                        1 => {
+                            dispatch::call_sync_b(b, c.method, &c.vals, direct, c.flavor);
+                        }
+                        _ => {
+                            #[cfg(feature = "unimock")]
+                            {
+                                if let Some(m) = mock_clone.as_ref() {
+                                    dispatch::call_sync_mock(m, c.method, &c.vals, false, c.flavor);
+                                } else {
+                                    dispatch::call_sync_a(a, c.method, &c.vals, false, c.flavor);
+                                }
+                            }
+                            #[cfg(not(feature = "unimock"))]
+                            {
+                                dispatch::call_sync_a(a, c.method, &c.vals, direct, c.flavor);
+                            }
+                        }
+                    }
+                }
+            });
+            futs.push(Some(Box::pin(ThreadedTask::spawn(i as u8, ctx_ptr, body))));
+            wakers.push(Waker::from(Arc::new(TaskWaker { idx: i as u8 })));
+            continue;
+        }
         let fut: TaskFut = match t.app {
             0 => Box::pin(task_a(apps.a, t.calls.clone(), direct)),
             1 => Box::pin(task_b(apps.b, t.calls.clone(), direct)),
